@@ -144,7 +144,7 @@ class World(object):
             if single:
                 kw['single'] = True
             try:
-                ret = em.emit(ev, self.senders[sname], 1, **kw)
+                ret = em.emit(ev, self.senders[sname], (3, 4), **kw)     # a tuple as positional argument
             except Exception as e:
                 return ('emit-exception', 'no exception', '%s: %s' % (type(e).__name__, e))
             order, calls = ref.emit(ev, sname, single)
@@ -164,8 +164,8 @@ class World(object):
                     what = 'missing-or-wrong-calls'
                 return (what, calls, got_calls)
             for c in self.log:
-                if c[3] != (1,) or c[4] != {'k': 2}:
-                    return ('arguments', {'args': (1,), 'kwargs': {'k': 2}},
+                if c[3] != ((3, 4),) or c[4] != {'k': 2}:
+                    return ('arguments', {'args': ((3, 4),), 'kwargs': {'k': 2}},
                             {'args': c[3], 'kwargs': c[4]})
                 if c[2] is not self.senders[sname]:
                     return ('sender-object', sname, repr(c[2]))
@@ -338,6 +338,10 @@ class ProgressWorld(object):
         self.completes = []
         self.progress = []
         pr = self.pr
+        # a reporter as the library itself uses it: with a progress and a completion message
+        # (their output goes to a sink)
+        pr.set_progress_message('working: {progress:.1f}%')
+        pr.set_complete_message('done')
 
         @evm.connect(sender=pr)
         def on_complete(sender, **kw):
@@ -348,6 +352,12 @@ class ProgressWorld(object):
             self.progress.append((value, value_max))
 
     def apply(self, op, ref):
+        import contextlib
+        import io
+        with contextlib.redirect_stdout(io.StringIO()):
+            return self._apply(op, ref)
+
+    def _apply(self, op, ref):
         del self.completes[:]
         pr = self.pr
         k = op[0]
